@@ -49,7 +49,7 @@ Lemma getc_enq s l t c : getc (enq s l t) c = getc s c.
 Proof. unfold enq, getc. destruct (nth_error (s_loops s) l); reflexivity. Qed.
 
 Lemma getl_enq_eq s l t v : getl s l = Some v ->
-  getl (enq s l t) l = Some (mkLq (q_pend v ++ [t]) (q_batch v) (q_spent v)).
+  getl (enq s l t) l = Some (mkLq (q_pend v ++ [t]) (q_batch v) (q_spent v) (q_drain v)).
 Proof.
   intros H. unfold enq, getl in *. rewrite H. cbn. apply nth_upd_eq. eapply nth_some_lt, H.
 Qed.
@@ -346,7 +346,7 @@ Qed.
 Definition set_loop (s : sys) (l : nat) (v : lq) : sys := set_loops s (upd (s_loops s) l v).
 
 Lemma enq_set_loop s l t v : getl s l = Some v ->
-  enq s l t = set_loop s l (mkLq (q_pend v ++ [t]) (q_batch v) (q_spent v)).
+  enq s l t = set_loop s l (mkLq (q_pend v ++ [t]) (q_batch v) (q_spent v) (q_drain v)).
 Proof. intros H. unfold enq, getl in *. rewrite H. reflexivity. Qed.
 
 Lemma enq_none s l t : getl s l = None -> enq s l t = s.
@@ -469,7 +469,7 @@ Proof.
     + exists k1. rewrite getc_put_neq by exact Hn. auto.
 Qed.
 
-Lemma in_q_all_set (v : lq) t x : In x (q_all (mkLq (q_pend v ++ [t]) (q_batch v) (q_spent v))) -> In x (q_all v) \/ x = t.
+Lemma in_q_all_set (v : lq) t x : In x (q_all (mkLq (q_pend v ++ [t]) (q_batch v) (q_spent v) (q_drain v))) -> In x (q_all v) \/ x = t.
 Proof.
   unfold q_all. cbn [q_pend q_batch q_spent]. rewrite !in_app_iff. cbn. intuition.
 Qed.
@@ -505,8 +505,8 @@ Proof. rewrite cnt_app. unfold cnt at 2. cbn [filter]. destruct (p t); reflexivi
 Lemma todoN_enq p s l t v : getl s l = Some v -> todoN p (enq s l t) = todoN p s + (if p t then 1 else 0).
 Proof.
   intros H. rewrite (enq_set_loop s l t v H).
-  pose proof (todoN_set_loop p s l v (mkLq (q_pend v ++ [t]) (q_batch v) (q_spent v)) H) as E.
-  assert (E2 : cnt p (q_todo (mkLq (q_pend v ++ [t]) (q_batch v) (q_spent v))) = cnt p (q_todo v) + (if p t then 1 else 0)).
+  pose proof (todoN_set_loop p s l v (mkLq (q_pend v ++ [t]) (q_batch v) (q_spent v) (q_drain v)) H) as E.
+  assert (E2 : cnt p (q_todo (mkLq (q_pend v ++ [t]) (q_batch v) (q_spent v) (q_drain v))) = cnt p (q_todo v) + (if p t then 1 else 0)).
   { unfold q_todo. cbn [q_pend q_batch]. rewrite app_assoc. apply cnt_snoc. }
   lia.
 Qed.
@@ -514,8 +514,8 @@ Qed.
 Lemma allN_enq p s l t v : getl s l = Some v -> allN p (enq s l t) = allN p s + (if p t then 1 else 0).
 Proof.
   intros H. rewrite (enq_set_loop s l t v H).
-  pose proof (allN_set_loop p s l v (mkLq (q_pend v ++ [t]) (q_batch v) (q_spent v)) H) as E.
-  assert (E2 : cnt p (q_all (mkLq (q_pend v ++ [t]) (q_batch v) (q_spent v))) = cnt p (q_all v) + (if p t then 1 else 0)).
+  pose proof (allN_set_loop p s l v (mkLq (q_pend v ++ [t]) (q_batch v) (q_spent v) (q_drain v)) H) as E.
+  assert (E2 : cnt p (q_all (mkLq (q_pend v ++ [t]) (q_batch v) (q_spent v) (q_drain v))) = cnt p (q_all v) + (if p t then 1 else 0)).
   { unfold q_all. cbn [q_pend q_batch q_spent]. rewrite !app_assoc. apply cnt_snoc. }
   lia.
 Qed.
@@ -840,11 +840,12 @@ Proof.
 Qed.
 
 Ltac on_conn_start HI Hg Ha Hnc :=
-  unfold step_ok, step, on_conn;
+  unfold step_ok, step, on_lconn, on_conn;
   match goal with |- match (match getc ?s ?c with _ => _ end) with _ => _ end =>
     destruct (getc s c) as [k|] eqn:Hg; [|exact I];
     destruct (k_alive k && negb (cstate_eqb (k_st k) Connecting)) eqn:E; [|exact I];
-    apply andb_prop in E as [Ha Hnc]; apply negb_true_iff in Hnc
+    apply andb_prop in E as [Ha Hnc]; apply negb_true_iff in Hnc;
+    try (destruct (gone s (k_loop k)); [exact I|])
   end.
 
 Lemma counters_disc k : counters_ok k -> up_k k -> counters_ok (set_life k Disconnecting (k_ups k) (k_downs k)).
@@ -1311,6 +1312,7 @@ Proof.
   destruct (gi_calls s (proj1 HI)) as [Hnd Hal]. destruct (Hal a Hin) as (k & Hg & Ha & Hnc & Hnd'). rewrite Hg.
   assert (Edt : is_dtor (a_api a) = false) by (destruct (a_api a); try reflexivity; congruence). rewrite Edt.
   match goal with |- match (if ?b then _ else _) with _ => _ end => destruct b eqn:Eg end; [exact I|].
+  destruct (a_loaded a && gone s (k_loop k)); [exact I|].
   set (s1 := set_calls s (drop_call u (s_calls s))).
   assert (HI1 : Inv0 s1).
   { destruct (drop_call_nodup u _ Hnd) as [N1 _]. apply (set_calls_inv0 s _ HI N1).
@@ -1365,47 +1367,15 @@ Qed.
 Lemma step_Swap s l : Inv s -> step_ok s (Swap l).
 Proof.
   intros [HI HH]. unfold step_ok, step. destruct (getl s l) as [v|] eqn:Ev; [|exact I].
-  destruct (q_idle v) eqn:Eid; [|exact I]. cbn [ret].
+  destruct (q_idle v && negb (gone s l)) eqn:Eid; [|exact I]. apply andb_prop in Eid as [Eid _]. cbn [ret].
   unfold q_idle in Eid. destruct (q_batch v) eqn:Eb; [|discriminate]. destruct (q_spent v) eqn:Es; [|discriminate].
-  fold (set_loop s l (mkLq [] (q_pend v) [])).
-  assert (Hall : forall c, cnt (holds c) (q_all (mkLq [] (q_pend v) [])) = cnt (holds c) (q_all v)).
+  fold (set_loop s l (mkLq [] (q_pend v) [] true)).
+  assert (Hall : forall c, cnt (holds c) (q_all (mkLq [] (q_pend v) [] true)) = cnt (holds c) (q_all v)).
   { intros c. unfold q_all. cbn [q_pend q_batch q_spent]. rewrite Eb, Es. cbn [app]. rewrite app_nil_r. reflexivity. }
   split.
   - apply (set_loop_same s l v _ HI Ev); [unfold q_todo; cbn [q_pend q_batch]; rewrite Eb, app_nil_r; reflexivity|exact Hall|].
     intros t. unfold q_all. cbn [q_pend q_batch q_spent]. rewrite Eb, Es. cbn [app]. rewrite app_nil_r. auto.
   - apply (held_set_loop s l v _ HH Ev). intros c. rewrite Hall. lia.
-Qed.
-
-(* the functors of a finished batch are destroyed: only strong references go away *)
-Lemma step_EndBatch s l : Inv s -> step_ok s (EndBatch l).
-Proof.
-  intros [HI HH]. unfold step_ok, step. destruct (getl s l) as [v|] eqn:Ev; [|exact I].
-  destruct (q_batch v) eqn:Eb; [|exact I]. destruct (q_spent v) eqn:Es; [exact I|].
-  apply finish_ok. fold (set_loop s l (mkLq (q_pend v) [] [])).
-  destruct HI as [G HC]. split.
-  - apply (ginv_set_loop s l v _ G Ev). intros x Hx. left. unfold q_all in *. cbn [q_pend q_batch q_spent] in Hx.
-    rewrite Eb. cbn [app] in *. apply in_or_app. right. exact Hx.
-  - intros c k Hg. rewrite getc_set_loop in Hg. pose proof (HC c k Hg) as HCk.
-    destruct HCk as [Hl Hi Hc Hp Hph Hd Hds Hdt].
-    assert (Htodo : q_todo (mkLq (q_pend v) [] []) = q_todo v) by (unfold q_todo; cbn [q_pend q_batch]; rewrite Eb; reflexivity).
-    constructor; auto.
-    + intros Ha. specialize (Hph Ha).
-      apply (phase_transfer s (set_loop s l (mkLq (q_pend v) [] [])) c k eq_refl eq_refl eq_refl); [| | | | |exact Hph].
-      1-4: pose proof (todoN_set_loop (isE c) s l v (mkLq (q_pend v) [] []) Ev);
-           pose proof (todoN_set_loop (isR c) s l v (mkLq (q_pend v) [] []) Ev);
-           pose proof (todoN_set_loop (isD c) s l v (mkLq (q_pend v) [] []) Ev);
-           pose proof (todoN_set_loop (isF c) s l v (mkLq (q_pend v) [] []) Ev);
-           rewrite Htodo in *; lia.
-      destruct (Nat.eq_dec l (k_loop k)) as [<-|Hn].
-      * rewrite (loop_todo_set_loop_eq s l v _ Ev), Htodo. unfold loop_todo. rewrite Ev. reflexivity.
-      * rewrite loop_todo_set_loop_neq by exact Hn. reflexivity.
-    + intros Ha. specialize (Hd Ha). rewrite (holders_eq s c k Hg) in Hd.
-      rewrite (holders_eq (set_loop s l (mkLq (q_pend v) [] [])) c k Hg).
-      pose proof (allN_set_loop (holds c) s l v (mkLq (q_pend v) [] []) Ev) as E.
-      change (s_calls (set_loop s l (mkLq (q_pend v) [] []))) with (s_calls s).
-      assert (cnt (holds c) (q_all (mkLq (q_pend v) [] [])) <= cnt (holds c) (q_all v)).
-      { unfold q_all. cbn [q_pend q_batch q_spent]. rewrite Eb. cbn [app]. rewrite cnt_app. lia. }
-      lia.
 Qed.
 
 (* ---- running one functor --------------------------------------------------------------------------- *)
@@ -1444,7 +1414,7 @@ Proof.
 Qed.
 
 (* the state after the head of the batch has been moved to the functors that ran *)
-Definition popped (v : lq) (t : task) (rest : list task) : lq := mkLq (q_pend v) rest (q_spent v ++ [t]).
+Definition popped (v : lq) (t : task) (rest : list task) : lq := mkLq (q_pend v) rest (q_spent v ++ [t]) (q_drain v).
 
 Lemma popped_all v t rest : q_batch v = t :: rest -> forall p, cnt p (q_all (popped v t rest)) = cnt p (q_all v).
 Proof.
@@ -1672,7 +1642,7 @@ Lemma ginv_put_nc s c0 k k0 : GInv s -> getc s c0 = Some k -> k_loop k0 = k_loop
 Proof. intros G Hg Hl Ha Hs Hn. apply (ginv_put s c0 k k0 G Hg Hl Ha Hs). intros Hc. contradiction. Qed.
 
 Definition clear_cli (s : sys) : sys :=
-  mkSys (s_nio s) (s_readd s) (s_conns s) (s_loops s) (s_rr s) (s_srv s) (s_cli s) None (s_calls s).
+  mkSys (s_nio s) (s_readd s) (s_conns s) (s_loops s) (s_rr s) (s_srv s) (s_cli s) None (s_calls s) (s_stop s).
 
 Lemma ginv_clear_cli s c k k0 : GInv s -> s_cliconn s = Some c -> getc s c = Some k ->
   k_loop k0 = k_loop k -> k_alive k0 = k_alive k -> (k_st k <> Connecting -> k_st k0 <> Connecting) ->
@@ -2193,9 +2163,160 @@ Proof.
     destruct (gi_placed s (proj1 HI) l v _ Hv Hin) as [_ [Hne _]]. apply (proj2 (Hne c)). reflexivity.
 Qed.
 
+(* ---- the pool's tear-down ------------------------------------------------------------------------------ *)
+(* connectEstablished / connectDestroyed: the functors ~TcpServer and TcpServer::newConnection hand to an io loop *)
+Definition noED (t : task) : bool := match t with TEstablish _ | TDestroy _ => false | _ => true end.
+
+(* once the server object is gone, an io loop that is inside a drain has no hand-off behind the batch
+   (under H7 the loops were in poll() when ~TcpServer queued its hand-offs, and nothing queues one afterwards) *)
+Definition QInv (s : sys) : Prop :=
+  (s_stop s <> 0 -> s_srv s = false) /\
+  (s_srv s = false -> forall l v, l <> 0 -> getl s l = Some v -> q_idle v = false -> forallb noED (q_pend v) = true) /\
+  (s_srv s = false -> has_task is_remove s = false).
+
+Lemma quitting_spec s l : quitting s l = true -> l <> 0 /\ s_stop s = l.
+Proof.
+  unfold quitting. intros H. apply andb_prop in H as [H1 H2]. apply negb_true_iff, Nat.eqb_neq in H1. apply Nat.eqb_eq in H2. auto.
+Qed.
+
+Lemma noED_cnt c l : forallb noED l = true -> cnt (isE c) l = 0 /\ cnt (isD c) l = 0.
+Proof.
+  induction l as [|t l IH]; [cbn; auto|]. cbn [forallb]. intros H. apply andb_prop in H as [Ht Hl]. destruct (IH Hl) as [A B].
+  rewrite !cnt_cons, A, B. destruct t; cbn in *; try discriminate; auto.
+Qed.
+
+Lemma first_life_LE_cnt c l : first_life c l = Some LE -> 1 <= cnt (isE c) l.
+Proof.
+  induction l as [|t l IH]; cbn [first_life]; [discriminate|]. unfold life_of. rewrite cnt_cons.
+  destruct (isE c t); [lia|]. destruct (isD c t); [discriminate|]. destruct (isF c t); [discriminate|]. intros H. specialize (IH H). lia.
+Qed.
+
+Lemma first_life_LD_cnt c l : first_life c l = Some LD -> 1 <= cnt (isD c) l.
+Proof.
+  induction l as [|t l IH]; cbn [first_life]; [discriminate|]. unfold life_of. rewrite cnt_cons.
+  destruct (isE c t); [discriminate|]. destruct (isD c t); [lia|]. destruct (isF c t); [discriminate|]. intros H. specialize (IH H). lia.
+Qed.
+
+(* queued functors go away without having run (the EventLoop is destroyed): a phase survives when none of the dropped
+   functors is a life-cycle hand-off of the connection *)
+Lemma phase_drop s s' c k :
+  phase s c k ->
+  s_srv s' = s_srv s -> s_cli s' = s_cli s -> s_cliconn s' = s_cliconn s ->
+  todoN (isE c) s' = todoN (isE c) s -> todoN (isR c) s' = todoN (isR c) s -> todoN (isD c) s' = todoN (isD c) s ->
+  todoN (isF c) s' <= todoN (isF c) s -> (k_ccb k = CbDetail -> todoN (isF c) s' = todoN (isF c) s) ->
+  (first_life c (loop_todo s' (k_loop k)) = first_life c (loop_todo s (k_loop k)) \/
+   (first_life c (loop_todo s (k_loop k)) <> Some LE /\ first_life c (loop_todo s (k_loop k)) <> Some LD)) ->
+  phase s' c k.
+Proof.
+  intros Hp H1 H2 H3 HE HR HD HF HFd Hfl. unfold phase, owner_alive in *. rewrite H1, H2, H3, HE, HR, HD.
+  destruct (k_st k).
+  - destruct Hp as (A1 & A2 & A3 & A4 & A5 & A6 & A7). repeat (split; [assumption || lia|]).
+    split; [|exact A7]. destruct Hfl as [E|[N _]]; [rewrite E; exact A6|congruence].
+  - destruct Hp as (A1 & A2 & A3 & [B|[(B1 & B2 & B3 & B4 & B5)|(B1 & B2 & B3 & B4)]]); repeat (split; [assumption|]).
+    + left. exact B.
+    + right. left. repeat (split; [assumption|]). destruct Hfl as [E|[_ N]]; [rewrite E; exact B5|congruence].
+    + right. right. repeat (split; [assumption|]). rewrite (HFd B3). exact B4.
+  - destruct Hp as (A1 & A2 & A3 & [B|[(B1 & B2 & B3 & B4 & B5)|(B1 & B2 & B3 & B4)]]); repeat (split; [assumption|]).
+    + left. exact B.
+    + right. left. repeat (split; [assumption|]). destruct Hfl as [E|[_ N]]; [rewrite E; exact B5|congruence].
+    + right. right. repeat (split; [assumption|]). rewrite (HFd B3). exact B4.
+  - exact Hp.
+Qed.
+
+Lemma set_stop_inv0 s j : Inv0 s -> Inv0 (set_stop s j).
+Proof.
+  intros [[G1 Gr G2 G3 G4] HC]. split; [constructor; auto|].
+  intros c k Hg. destruct (HC c k Hg) as [Hl Hi Hc Hp Hph Hd Hds Hdt]. constructor; auto.
+Qed.
+
+(* io loop l leaves loop(): its EventLoop dies with everything that is still queued *)
+Lemma exit_inv0 s l v : Inv0 s -> getl s l = Some v -> l <> 0 -> q_batch v = [] -> forallb noED (q_pend v) = true ->
+  Inv0 (set_loop s l (mkLq [] [] [] false)).
+Proof.
+  intros [G HC] Hv Hl0 Hb Hned. set (v' := mkLq [] [] [] false).
+  assert (Htodo : q_todo v = q_pend v) by (unfold q_todo; rewrite Hb; reflexivity).
+  split.
+  - apply (ginv_set_loop s l v v' G Hv). intros t Ht. cbn in Ht. contradiction.
+  - intros c k Hg. rewrite getc_set_loop in Hg. pose proof (HC c k Hg) as HCk.
+    destruct (ci_loop s c k HCk) as [L1 L2].
+    (* what the queue of loop l holds about connection c *)
+    assert (Hcnt : forall p, todoN p (set_loop s l v') + cnt p (q_pend v) = todoN p s).
+    { intros p. pose proof (todoN_set_loop p s l v v' Hv) as E. rewrite Htodo in E. change (cnt p (q_todo v')) with 0 in E. lia. }
+    destruct (noED_cnt c _ Hned) as [NE ND].
+    assert (NR : cnt (isR c) (q_pend v) = 0).
+    { apply cnt_zero_notin. intros t Ht. destruct (isR c t) eqn:E; [|reflexivity]. exfalso.
+      assert (Hin : In t (q_all v)) by (unfold q_all; apply in_or_app; right; apply in_or_app; right; exact Ht).
+      destruct (gi_placed s G l v t Hv Hin) as [_ [_ Hpl]]. destruct t; cbn in E; try discriminate. destruct Hpl as [Hx _]. congruence. }
+    assert (NF : k_loop k <> l -> forall p, (forall t, p t = true -> task_conn t = c /\ t <> TOther /\ forall c', t <> TRemove c') -> cnt p (q_all v) = 0).
+    { intros Hn p Hp. apply cnt_zero_notin. intros t Ht. destruct (p t) eqn:E; [|reflexivity]. exfalso.
+      destruct (Hp t E) as (Hc & Hno & Hnr). destruct (gi_placed s G l v t Hv Ht) as [_ [_ Hpl]].
+      destruct t; try (destruct Hpl as (k1 & Hk1 & Hl1 & _); rewrite Hc, Hg in Hk1; injection Hk1 as <-; congruence); try congruence.
+      all: eapply Hnr; reflexivity. }
+    assert (Hsub : forall p, cnt p (q_pend v) <= cnt p (q_all v)).
+    { intros p. unfold q_all. rewrite !cnt_app. lia. }
+    destruct HCk as [Hl Hi Hc Hp Hph Hd Hds Hdt]. constructor; auto.
+    + intros Ha. specialize (Hph Ha).
+      apply (phase_drop s (set_loop s l v') c k Hph eq_refl eq_refl eq_refl).
+      * pose proof (Hcnt (isE c)). lia.
+      * pose proof (Hcnt (isR c)). lia.
+      * pose proof (Hcnt (isD c)). lia.
+      * pose proof (Hcnt (isF c)). lia.
+      * intros Hcb. assert (Hn : k_loop k <> l) by (rewrite L2 by congruence; auto).
+        pose proof (Hcnt (isF c)). pose proof (NF Hn (isF c) (isF_local c)). pose proof (Hsub (isF c)). lia.
+      * destruct (Nat.eq_dec l (k_loop k)) as [E|Hn].
+        -- right. rewrite <- E. unfold loop_todo. rewrite Hv, Htodo. split; intros Hx.
+           ++ apply first_life_LE_cnt in Hx. lia.
+           ++ apply first_life_LD_cnt in Hx. lia.
+        -- left. rewrite loop_todo_set_loop_neq by exact Hn. reflexivity.
+    + intros Ha. specialize (Hd Ha). rewrite (holders_eq s c k Hg) in Hd.
+      rewrite (holders_eq (set_loop s l v') c k Hg).
+      pose proof (allN_set_loop (holds c) s l v v' Hv) as E. change (cnt (holds c) (q_all v')) with 0 in E.
+      change (s_calls (set_loop s l v')) with (s_calls s). lia.
+Qed.
+
+(* the functors of a finished batch are destroyed: only strong references go away; an io loop that has been told to quit
+   leaves loop() here *)
+Lemma step_EndBatch s l : Inv s -> QInv s -> step_ok s (EndBatch l).
+Proof.
+  intros [HI HH] (Q1 & Q2 & _). unfold step_ok, step. destruct (getl s l) as [v|] eqn:Ev; [|exact I].
+  destruct (q_batch v) eqn:Eb; [|exact I]. destruct (q_drain v) eqn:Edr; [|exact I]. cbn [negb].
+  destruct (quitting s l) eqn:Eq.
+  - (* the loop exits *)
+    destruct (true && outlived s l); [exact I|]. cbn [ret]. apply finish_ok.
+    destruct (quitting_spec s l Eq) as [Hl0 Hst].
+    change (set_loops s (upd (s_loops s) l (mkLq [] [] [] false))) with (set_loop s l (mkLq [] [] [] false)).
+    apply set_stop_inv0. apply (exit_inv0 s l v HI Ev Hl0 Eb).
+    apply (Q2 (Q1 ltac:(lia)) l v Hl0 Ev). unfold q_idle. rewrite Eb, Edr. destruct (q_spent v); reflexivity.
+  - apply finish_ok. fold (set_loop s l (mkLq (q_pend v) [] [] false)).
+    destruct HI as [G HC]. split.
+    + apply (ginv_set_loop s l v _ G Ev). intros x Hx. left. unfold q_all in *. cbn [q_pend q_batch q_spent] in Hx.
+      rewrite Eb. cbn [app] in *. apply in_or_app. right. exact Hx.
+    + intros c k Hg. rewrite getc_set_loop in Hg. pose proof (HC c k Hg) as HCk.
+      destruct HCk as [Hl Hi Hc Hp Hph Hd Hds Hdt].
+      assert (Htodo : q_todo (mkLq (q_pend v) [] [] false) = q_todo v) by (unfold q_todo; cbn [q_pend q_batch]; rewrite Eb; reflexivity).
+      constructor; auto.
+      * intros Ha. specialize (Hph Ha).
+        apply (phase_transfer s (set_loop s l (mkLq (q_pend v) [] [] false)) c k eq_refl eq_refl eq_refl); [| | | | |exact Hph].
+        1-4: pose proof (todoN_set_loop (isE c) s l v (mkLq (q_pend v) [] [] false) Ev);
+             pose proof (todoN_set_loop (isR c) s l v (mkLq (q_pend v) [] [] false) Ev);
+             pose proof (todoN_set_loop (isD c) s l v (mkLq (q_pend v) [] [] false) Ev);
+             pose proof (todoN_set_loop (isF c) s l v (mkLq (q_pend v) [] [] false) Ev);
+             rewrite Htodo in *; lia.
+        destruct (Nat.eq_dec l (k_loop k)) as [<-|Hn].
+        -- rewrite (loop_todo_set_loop_eq s l v _ Ev), Htodo. unfold loop_todo. rewrite Ev. reflexivity.
+        -- rewrite loop_todo_set_loop_neq by exact Hn. reflexivity.
+      * intros Ha. specialize (Hd Ha). rewrite (holders_eq s c k Hg) in Hd.
+        rewrite (holders_eq (set_loop s l (mkLq (q_pend v) [] [] false)) c k Hg).
+        pose proof (allN_set_loop (holds c) s l v (mkLq (q_pend v) [] [] false) Ev) as E.
+        change (s_calls (set_loop s l (mkLq (q_pend v) [] [] false))) with (s_calls s).
+        assert (cnt (holds c) (q_all (mkLq (q_pend v) [] [] false)) <= cnt (holds c) (q_all v)).
+        { unfold q_all. cbn [q_pend q_batch q_spent]. rewrite Eb. cbn [app]. rewrite cnt_app. lia. }
+        lia.
+Qed.
+
 (* ---- creating a connection -------------------------------------------------------------------------- *)
 Definition add_conn (s : sys) (k : lc) (rr : nat) (cc : option nat) : sys :=
-  mkSys (s_nio s) (s_readd s) (s_conns s ++ [k]) (s_loops s) rr (s_srv s) (s_cli s) cc (s_calls s).
+  mkSys (s_nio s) (s_readd s) (s_conns s ++ [k]) (s_loops s) rr (s_srv s) (s_cli s) cc (s_calls s) (s_stop s).
 
 Lemma no_task_about_new s p : GInv s ->
   (forall t, p t = true -> t <> TOther /\ task_conn t = length (s_conns s)) ->
@@ -2403,9 +2524,9 @@ Proof.
 Qed.
 
 Lemma ginv_cli_off s : GInv s -> forall cs ls, length ls = length (s_loops s) ->
-  (forall l v t, nth_error ls l = Some v -> In t (q_all v) -> placed (mkSys (s_nio s) (s_readd s) cs ls (s_rr s) (s_srv s) false None (s_calls s)) l t) ->
+  (forall l v t, nth_error ls l = Some v -> In t (q_all v) -> placed (mkSys (s_nio s) (s_readd s) cs ls (s_rr s) (s_srv s) false None (s_calls s) (s_stop s)) l t) ->
   (forall a, In a (s_calls s) -> exists k, nth_error cs (a_conn a) = Some k /\ k_alive k = true /\ k_st k <> Connecting /\ a_api a <> ADtor) ->
-  GInv (mkSys (s_nio s) (s_readd s) cs ls (s_rr s) (s_srv s) false None (s_calls s)).
+  GInv (mkSys (s_nio s) (s_readd s) cs ls (s_rr s) (s_srv s) false None (s_calls s) (s_stop s)).
 Proof.
   intros [G1 Gr G2 [G3 G3'] G4] cs ls Hlen Hpl Hcalls. constructor; cbn; auto.
   - congruence.
@@ -2432,7 +2553,7 @@ Proof.
     assert (Hfinal : forall ls kf, length ls = length (s_loops s) ->
               (forall l v t, nth_error ls l = Some v -> In t (q_all v) ->
                  (exists v', getl s l = Some v' /\ In t (q_all v')) \/ t = TForceClose c /\ l = 0) ->
-              (forall c1, c1 <> c -> same_for s (mkSys (s_nio s) (s_readd s) (upd (s_conns s) c kf) ls (s_rr s) (s_srv s) false None (s_calls s)) c1) ->
+              (forall c1, c1 <> c -> same_for s (mkSys (s_nio s) (s_readd s) (upd (s_conns s) c kf) ls (s_rr s) (s_srv s) false None (s_calls s) (s_stop s)) c1) ->
               same_core (set_own kf CbDetail false (k_urefs k) (k_delayed k)) kf ->
               (k_st kf = k_st k \/ k_st kf = Disconnecting) -> k_wr kf = k_wr k -> k_rd kf = k_rd k -> k_added kf = true ->
               k_pidx kf = k_pidx k -> k_loop kf = 0 -> k_alive kf = true -> k_ups kf = k_ups k -> k_downs kf = k_downs k ->
@@ -2440,11 +2561,11 @@ Proof.
               (1 <= k_urefs k \/ 1 <= sumq (fun l => cnt (isF c) (q_todo l)) ls) ->
               sumq (fun l => cnt (isE c) (q_todo l)) ls = 0 -> sumq (fun l => cnt (isR c) (q_todo l)) ls = 0 ->
               sumq (fun l => cnt (isD c) (q_todo l)) ls = 0 ->
-              Inv0 (mkSys (s_nio s) (s_readd s) (upd (s_conns s) c kf) ls (s_rr s) (s_srv s) false None (s_calls s))).
+              Inv0 (mkSys (s_nio s) (s_readd s) (upd (s_conns s) c kf) ls (s_rr s) (s_srv s) false None (s_calls s) (s_stop s))).
     { intros ls kf Hlen Htasks Hfr Hcore Hst E2 E3 E4 E5 E6 E7 E11 E12 E13 E14 Hhold NE NR ND.
       destruct Hcore as (C1 & C2 & C3 & C4 & C5 & C6 & C7 & C8 & C9 & C10 & _). cbn [set_own k_ccb k_mapped k_urefs] in C8, C9, C10.
       assert (Hupf : up_k kf) by (destruct Hst as [E|E]; [unfold up_k; rewrite E; exact Hup|right; exact E]).
-      set (s' := mkSys (s_nio s) (s_readd s) (upd (s_conns s) c kf) ls (s_rr s) (s_srv s) false None (s_calls s)).
+      set (s' := mkSys (s_nio s) (s_readd s) (upd (s_conns s) c kf) ls (s_rr s) (s_srv s) false None (s_calls s) (s_stop s)).
       assert (Hext : conns_ext s s').
       { split; [unfold s'; cbn; rewrite length_upd; lia|]. intros c1 k1 Hk1. destruct (Nat.eq_dec c c1) as [<-|Hn].
         - exists kf. unfold getc, s'. cbn. rewrite nth_upd_eq by exact Hlt. split; [reflexivity|]. split; [congruence|].
@@ -2486,7 +2607,7 @@ Proof.
       assert (Eupd : upd (upd (upd (s_conns s) c ka) c kb) c kf = upd (s_conns s) c kf).
       { clear. generalize (s_conns s) c. induction l as [|x l IH]; intros [|n]; cbn; auto. f_equal. apply IH. }
       rewrite Eupd.
-      set (v1 := mkLq (q_pend v0 ++ [TForceClose c]) (q_batch v0) (q_spent v0)).
+      set (v1 := mkLq (q_pend v0 ++ [TForceClose c]) (q_batch v0) (q_spent v0) (q_drain v0)).
       assert (HsF : forall p, sumq (fun l => cnt p (q_todo l)) (upd (s_loops s) 0 v1) = todoN p s + (if p (TForceClose c) then 1 else 0)).
       { intros p. pose proof (sumq_upd (fun l => cnt p (q_todo l)) (s_loops s) 0 v0 v1 Hv0) as E.
         assert (E2 : cnt p (q_todo v1) = cnt p (q_todo v0) + (if p (TForceClose c) then 1 else 0)).
@@ -2765,20 +2886,436 @@ Proof.
   { split; [exact G|]. split; [exact Hsrv|]. split; [exact Enr|]. split; [exact Enf|].
     intros c1 k1 Hg1. split; [lia|]. intros _. apply HC, Hg1. }
   destruct (srv_destroy_from_inv (length (s_conns s)) s 0 HS) as (s1 & o1 & E1 & HI1); [lia|].
-  rewrite E1. cbn [bind ret]. rewrite app_nil_r. apply finish_ok, HI1.
+  destruct (io_idle s); [|exact I]. cbn [negb].
+  rewrite E1. cbn [bind ret]. rewrite app_nil_r. apply finish_ok, set_stop_inv0, HI1.
+Qed.
+
+(* ==== QInv is an invariant: what every op does to the queues of the io loops ========================= *)
+(* [arel s s']: the loops' batches, spent functors and drain flags are the same, the pending queues only grew, and -
+   once the server object is gone - no connectEstablished / connectDestroyed was appended to an io loop *)
+Definition noRm (t : task) : bool := negb (is_remove t).
+Definition arel (s s' : sys) : Prop :=
+  s_srv s' = s_srv s /\ s_stop s' = s_stop s /\
+  forall l, match getl s l, getl s' l with
+            | Some v, Some v' => q_batch v' = q_batch v /\ q_spent v' = q_spent v /\ q_drain v' = q_drain v /\
+                                 exists ex, q_pend v' = q_pend v ++ ex /\
+                                            (s_srv s = false -> forallb noRm ex = true /\ (l <> 0 -> forallb noED ex = true))
+            | None, None => True
+            | _, _ => False
+            end.
+(* connections that do not belong to the server live on the base loop *)
+Definition cl0 (s : sys) : Prop := forall c k, getc s c = Some k -> k_ccb k <> CbServer -> k_loop k = 0.
+Definition agood (s : sys) (m : M) : Prop := match m with Ok (s', _) => arel s s' | _ => True end.
+
+Lemma arel_same s s' : s_loops s' = s_loops s -> s_srv s' = s_srv s -> s_stop s' = s_stop s -> arel s s'.
+Proof.
+  intros Hl Hs Hp. split; [exact Hs|]. split; [exact Hp|]. intros l. unfold getl. rewrite Hl.
+  destruct (nth_error (s_loops s) l) as [v|]; [|exact I]. repeat (split; [reflexivity|]). exists []. rewrite app_nil_r. cbn. auto.
+Qed.
+
+Lemma arel_refl s : arel s s.
+Proof. apply arel_same; reflexivity. Qed.
+
+Lemma arel_trans s1 s2 s3 : arel s1 s2 -> arel s2 s3 -> arel s1 s3.
+Proof.
+  intros (A1 & A2 & A3) (B1 & B2 & B3). split; [congruence|]. split; [congruence|]. intros l. specialize (A3 l). specialize (B3 l).
+  destruct (getl s1 l) as [v1|], (getl s2 l) as [v2|], (getl s3 l) as [v3|]; try contradiction; try exact I.
+  destruct A3 as (a1 & a2 & a3 & ex1 & a4 & a5). destruct B3 as (b1 & b2 & b3 & ex2 & b4 & b5).
+  repeat (split; [congruence|]). exists (ex1 ++ ex2). split; [rewrite b4, a4, app_assoc; reflexivity|].
+  intros Hs. destruct (a5 Hs) as [a6 a7]. destruct (b5 ltac:(congruence)) as [b6 b7]. rewrite !forallb_app, a6, b6. split; [reflexivity|].
+  intros Hl. rewrite (a7 Hl), (b7 Hl). reflexivity.
+Qed.
+
+Lemma arel_enq s l t : (s_srv s = false -> noRm t = true /\ (l <> 0 -> noED t = true)) -> arel s (enq s l t).
+Proof.
+  intros Ht. destruct (enq_fields s l t) as (_ & _ & F3 & _). split; [exact F3|]. split; [unfold enq; destruct (nth_error (s_loops s) l); reflexivity|].
+  intros l'. destruct (getl s l) as [v|] eqn:Ev.
+  - destruct (Nat.eq_dec l l') as [<-|Hn].
+    + rewrite Ev, (getl_enq_eq s l t v Ev). cbn [q_pend q_batch q_spent q_drain]. repeat (split; [reflexivity|]).
+      exists [t]. split; [reflexivity|]. intros Hs. destruct (Ht Hs) as [A B]. cbn. rewrite A. split; [reflexivity|]. intros Hl. rewrite (B Hl). reflexivity.
+    + rewrite (getl_enq_neq s l l' t Hn). destruct (getl s l') as [v'|]; [|exact I]. repeat (split; [reflexivity|]). exists []. rewrite app_nil_r. cbn. auto.
+  - rewrite (enq_none s l t Ev). destruct (getl s l') as [v'|]; [|exact I]. repeat (split; [reflexivity|]). exists []. rewrite app_nil_r. cbn. auto.
+Qed.
+
+(* a functor that is neither the owner hop nor a hand-off *)
+Lemma arel_enq_plain s l t : noRm t = true -> noED t = true -> arel s (enq s l t).
+Proof. intros A B. apply arel_enq. auto. Qed.
+Lemma arel_enq_srv s l t : s_srv s = true -> arel s (enq s l t).
+Proof. intros A. apply arel_enq. congruence. Qed.
+Lemma arel_enq0 s t : noRm t = true -> arel s (enq s 0 t).
+Proof. intros A. apply arel_enq. intros _. split; [exact A|congruence]. Qed.
+
+Lemma arel_put s c k : arel s (put s c k).
+Proof. apply arel_same; reflexivity. Qed.
+
+Lemma arel_put_enq s c k l t : (s_srv s = true \/ (noRm t = true /\ noED t = true)) -> arel s (enq (put s c k) l t).
+Proof.
+  intros H. apply (arel_trans s (put s c k) _ (arel_put s c k)). destruct H as [H|[A B]]; [apply arel_enq_srv, H|apply arel_enq_plain; assumption].
+Qed.
+
+Lemma agood_ret s s' : arel s s' -> agood s (ret s').
+Proof. intros H. exact H. Qed.
+
+Lemma agood_bind s m f : agood s m -> (forall s1, arel s s1 -> agood s1 (f s1)) -> agood s (bind m f).
+Proof.
+  intros Hm Hf. unfold bind. destruct m as [[s1 o1]| |]; [|exact I|exact I]. cbn in Hm.
+  specialize (Hf s1 Hm). destruct (f s1) as [[s2 o2]| |]; [|exact I|exact I]. apply (arel_trans s s1 s2 Hm Hf).
+Qed.
+
+Lemma agood_weaken s0 s m : arel s0 s -> agood s m -> agood s0 m.
+Proof. intros H Hm. destruct m as [[s1 o1]| |]; [|exact I|exact I]. apply (arel_trans s0 s s1 H Hm). Qed.
+
+Lemma cl0_put s c k k' : cl0 s -> getc s c = Some k -> k_loop k' = k_loop k -> (k_ccb k' = k_ccb k \/ (k_ccb k <> CbServer)) -> cl0 (put s c k').
+Proof.
+  intros H Hg Hl Hcb c1 k1 Hg1 Hn. destruct (Nat.eq_dec c c1) as [<-|Hne].
+  - rewrite getc_put_eq in Hg1 by (eapply getc_lt, Hg). injection Hg1 as <-. rewrite Hl. apply (H c k Hg).
+    destruct Hcb as [E|E]; [congruence|exact E].
+  - rewrite getc_put_neq in Hg1 by exact Hne. apply (H c1 k1 Hg1 Hn).
+Qed.
+
+Lemma inv0_cl0 s : Inv0 s -> cl0 s.
+Proof. intros [_ HC] c k Hg Hn. apply (proj2 (ci_loop s c k (HC c k Hg)) Hn). Qed.
+
+Lemma agood_establish s thr c : agood s (establish s thr c).
+Proof.
+  unfold establish. destruct (getc s c) as [k|]; [|exact I]. destruct (negb (k_alive k)); [exact I|].
+  destruct (negb (thr =? k_loop k)); [exact I|]. destruct (negb (cstate_eqb (k_st k) Connecting)); [exact I|]. apply arel_put.
+Qed.
+
+Lemma agood_remove_in_loop s thr c : agood s (remove_in_loop s thr c).
+Proof.
+  unfold remove_in_loop. destruct (s_srv s) eqn:Hs; [|exact I]. cbn [negb]. destruct (negb (thr =? 0)); [exact I|].
+  destruct (getc s c) as [k|]; [|exact I]. destruct (negb (k_mapped k)); [exact I|]. cbn [ret agood].
+  apply arel_put_enq. left. exact Hs.
+Qed.
+
+Lemma agood_close_cb s thr c : cl0 s -> agood s (close_cb s thr c).
+Proof.
+  intros Hcl. unfold close_cb. destruct (getc s c) as [k|] eqn:Hg; [|exact I]. destruct (k_ccb k) eqn:Ecb.
+  - destruct (s_srv s) eqn:Hs; [|exact I]. cbn [negb]. destruct (thr =? 0); [apply agood_remove_in_loop|].
+    apply arel_enq_srv, Hs.
+  - destruct (negb (s_cli s)); [exact I|]. destruct (negb (thr =? 0)); [exact I|]. destruct (s_cliconn s) as [c'|]; [|exact I].
+    destruct (negb (c' =? c)); [exact I|]. cbn [ret agood].
+    match goal with |- arel s (enq ?x 0 ?t) => apply (arel_trans s x _) end; [apply arel_same; reflexivity|].
+    apply arel_enq0. reflexivity.
+  - cbn [ret agood]. rewrite (Hcl c k Hg) by congruence. apply arel_enq0. reflexivity.
+Qed.
+
+Lemma agood_handle_close s thr c : cl0 s -> agood s (handle_close s thr c).
+Proof.
+  intros Hcl. unfold handle_close. destruct (getc s c) as [k|] eqn:Hg; [|exact I].
+  destruct (negb (thr =? k_loop k)); [exact I|]. destruct (negb (k_closable k)); [exact I|].
+  set (k1 := chan_update (s_readd s) (set_life k Disconnected (k_ups k) (S (k_downs k))) false false).
+  assert (Hcl1 : cl0 (put s c k1)).
+  { pose proof (chan_update_fields (s_readd s) (set_life k Disconnected (k_ups k) (S (k_downs k))) false false) as F. cbv zeta in F.
+    destruct F as (_ & _ & _ & _ & _ & F6 & _ & F8 & _). apply (cl0_put s c k k1 Hcl Hg); [exact F6|left; exact F8]. }
+  pose proof (agood_close_cb (put s c k1) thr c Hcl1) as H. unfold emit, bind.
+  destruct (close_cb (put s c k1) thr c) as [[s2 o2]| |]; [|exact I|exact I].
+  apply (arel_trans s (put s c k1) s2 (arel_put s c k1) H).
+Qed.
+
+Lemma agood_connect_destroyed s thr c : agood s (connect_destroyed s thr c).
+Proof.
+  unfold connect_destroyed. destruct (getc s c) as [k|]; [|exact I]. destruct (negb (k_alive k)); [exact I|].
+  destruct (negb (thr =? k_loop k)); [exact I|].
+  destruct (k_closable k); (match goal with |- agood s (match chan_remove ?x with _ => _ end) => destruct (chan_remove x) end); try exact I; apply arel_put.
+Qed.
+
+Lemma arel_force_close s c : arel s (force_close s c).
+Proof.
+  unfold force_close. destruct (getc s c) as [k|]; [|apply arel_refl]. destruct (k_closable k); [|apply arel_refl].
+  apply arel_put_enq. right. split; reflexivity.
+Qed.
+
+Lemma arel_start_read s c : arel s (start_read s c).
+Proof. unfold start_read. destruct (getc s c) as [k|]; [|apply arel_refl]. match goal with |- context [if ?b then _ else _] => destruct b end; [apply arel_put|apply arel_refl]. Qed.
+
+Lemma arel_stop_read s c : arel s (stop_read s c).
+Proof. unfold stop_read. destruct (getc s c) as [k|]; [|apply arel_refl]. match goal with |- context [if ?b then _ else _] => destruct b end; [apply arel_put|apply arel_refl]. Qed.
+
+Lemma arel_send_in_loop s c full wc : arel s (send_in_loop s c full wc).
+Proof.
+  unfold send_in_loop. destruct (getc s c) as [k|]; [|apply arel_refl]. destruct (cstate_eqb (k_st k) Disconnected); [apply arel_refl|].
+  destruct (k_wr k); [apply arel_refl|]. destruct (k_fin k); [apply arel_refl|]. destruct full; [|apply arel_put].
+  destruct wc; [|apply arel_refl]. apply arel_enq_plain; reflexivity.
+Qed.
+
+Lemma sweep_from_same n : forall s thr c, let s' := fst (sweep_from s thr n c) in
+  s_loops s' = s_loops s /\ s_srv s' = s_srv s /\ s_stop s' = s_stop s.
+Proof.
+  induction n as [|n IH]; intros s thr c; cbn [sweep_from]; [cbn; auto|].
+  destruct (getc s c) as [k|]; [|cbn; auto]. destruct (k_alive k && (holders s c =? 0)); [|apply IH].
+  specialize (IH (put s c (kill k)) thr (S c)). destruct (sweep_from (put s c (kill k)) thr n (S c)) as [s1 o1]. exact IH.
+Qed.
+
+Lemma agood_finish s m thr : agood s m -> agood s (finish m thr).
+Proof.
+  intros H. unfold finish. destruct m as [[s1 o1]| |]; [|exact I|exact I]. cbn in H.
+  unfold sweep. pose proof (sweep_from_same (length (s_conns s1)) s1 thr 0) as Hs. cbv zeta in Hs.
+  destruct (sweep_from s1 thr (length (s_conns s1)) 0) as [s2 d]. cbn [fst] in Hs. destruct Hs as (A & B & C).
+  destruct (all_clean d); [|exact I]. apply (arel_trans s s1 s2 H). apply arel_same; assumption.
+Qed.
+
+Lemma agood_accept s : agood s (accept s).
+Proof.
+  unfold accept. destruct (negb (s_srv s)) eqn:Hs; [exact I|]. apply negb_false_iff in Hs.
+  match goal with |- agood s (if ?b then establish ?x _ _ else _) => destruct b; [apply (agood_weaken s x); [apply arel_same; reflexivity|apply agood_establish]|] end.
+  cbn [ret agood]. match goal with |- arel s (enq ?x _ _) => apply (arel_trans s x); [apply arel_same; reflexivity|] end.
+  apply arel_enq_srv. exact Hs.
+Qed.
+
+Lemma agood_srv_destroy_from n : forall s c, s_srv s = true -> agood s (srv_destroy_from s n c).
+Proof.
+  induction n as [|n IH]; intros s c Hs; cbn [srv_destroy_from]; [apply arel_refl|].
+  destruct (getc s c) as [k|]; [|apply arel_refl]. destruct (k_ccb k); try (apply IH, Hs).
+  destruct (k_mapped k && k_alive k); [|apply IH, Hs].
+  apply agood_bind.
+  - destruct (k_loop k =? 0).
+    + eapply agood_weaken; [apply arel_put|apply agood_connect_destroyed].
+    + cbn [ret agood]. apply arel_put_enq. left. exact Hs.
+  - intros s1 (A & _). apply IH. congruence.
+Qed.
+
+Lemma agood_cli_connect s : agood s (cli_connect s).
+Proof.
+  unfold cli_connect. destruct (negb (s_cli s)); [exact I|]. destruct (s_cliconn s); [exact I|].
+  match goal with |- agood s (establish ?x _ _) => apply (agood_weaken s x); [apply arel_same; reflexivity|apply agood_establish] end.
+Qed.
+
+Lemma agood_cli_destroy strict s : agood s (cli_destroy strict s).
+Proof.
+  unfold cli_destroy. destruct (negb (s_cli s)); [exact I|]. destruct (s_cliconn s) as [c|].
+  - destruct (getc s c) as [k|]; [|exact I].
+    match goal with |- agood s (if ?b then _ else _) => destruct b; [exact I|] end.
+    set (s1 := put s c _).
+    assert (H2 : arel s (if holders s c =? 1 then force_close s1 c else s1)).
+    { destruct (holders s c =? 1); [apply (arel_trans s s1); [apply arel_put|apply arel_force_close]|apply arel_put]. }
+    destruct (getc (if holders s c =? 1 then force_close s1 c else s1) c) as [k2|]; [|exact I].
+    cbn [ret agood]. eapply arel_trans; [exact H2|]. apply arel_same; reflexivity.
+  - cbn [ret agood]. match goal with |- arel s (enq ?x _ _) => apply (arel_trans s x); [apply arel_same; reflexivity|] end.
+    apply arel_enq_plain; reflexivity.
+Qed.
+
+Lemma agood_run_task s l t full wc : cl0 s -> agood s (run_task s l t full wc).
+Proof.
+  intros Hcl. destruct t; cbn [run_task].
+  - apply agood_establish.
+  - apply agood_remove_in_loop.
+  - apply agood_connect_destroyed.
+  - destruct (getc s c) as [k|]; [|exact I]. destruct (k_closable k); [apply agood_handle_close, Hcl|apply arel_refl].
+  - apply arel_refl.
+  - destruct (getc s c) as [k|]; [|exact I]. destruct (k_alive k); [apply arel_put|exact I].
+  - match goal with |- agood s (if ?b then _ else _) => destruct b; [apply arel_start_read|exact I] end.
+  - match goal with |- agood s (if ?b then _ else _) => destruct b; [apply arel_stop_read|exact I] end.
+  - match goal with |- agood s (if ?b then _ else _) => destruct b; [apply arel_send_in_loop|exact I] end.
+  - destruct (getc s c) as [k|]; [apply arel_put|exact I].
+  - apply arel_refl.
+  - destruct (getc s c) as [k|]; [|exact I]. destruct (k_alive k); [apply arel_put|exact I].
+Qed.
+
+Lemma agood_ev_step strict s c e : cl0 s -> agood s (ev_step strict s c e).
+Proof.
+  intros Hcl. unfold ev_step. destruct (getc s c) as [k|]; [|exact I].
+  match goal with |- agood s (if ?b then _ else _) => destruct b; [exact I|] end.
+  destruct e.
+  - destruct (k_rd k); [apply arel_refl|exact I].
+  - destruct (k_rd k); [|exact I]. match goal with |- agood s (if ?b then _ else _) => destruct b; [exact I|apply agood_handle_close, Hcl] end.
+  - destruct (k_rd k); [apply arel_refl|exact I].
+  - match goal with |- agood s (if ?b then _ else _) => destruct b; [exact I|apply agood_handle_close, Hcl] end.
+  - apply arel_refl.
+  - destruct (k_wr k); [|exact I]. destruct drained; [|apply arel_refl]. cbn [ret agood].
+    destruct wc; [|apply arel_put]. apply arel_put_enq. right. split; reflexivity.
+Qed.
+
+Lemma agood_on_conn s c f : (forall k, agood s (f k)) -> agood s (on_conn s c f).
+Proof. intros H. unfold on_conn. destruct (getc s c) as [k|]; [|exact I]. destruct (k_alive k && negb (cstate_eqb (k_st k) Connecting)); [apply H|exact I]. Qed.
+
+Lemma agood_on_lconn s c f : (forall k, agood s (f k)) -> agood s (on_lconn s c f).
+Proof. intros H. unfold on_lconn. apply agood_on_conn. intros k. destruct (gone s (k_loop k)); [exact I|apply H]. Qed.
+
+(* every op except Swap / Run / EndBatch / SrvDestroy only appends to the queues *)
+Lemma agood_step_plain strict s o : cl0 s ->
+  match o with Swap _ | Run _ _ _ | EndBatch _ | SrvDestroy => True | _ => agood s (step strict s o) end.
+Proof.
+  intros Hcl. destruct o; try exact I; cbn [step].
+  - apply agood_finish, agood_accept.
+  - apply agood_finish, agood_cli_connect.
+  - apply agood_finish, agood_cli_destroy.
+  - destruct (getc s c) as [k|]; [|exact I]. apply agood_finish, agood_ev_step, Hcl.
+  - destruct (getc s c) as [k|]; [|exact I]. destruct (k_delayed k); [exact I|]. destruct (negb (loop_idle s (k_loop k))); [exact I|].
+    apply agood_finish. cbn [ret agood]. destruct (k_alive k); [eapply arel_trans; [apply arel_put|apply arel_force_close]|apply arel_put].
+  - apply agood_on_lconn. intros k. cbn [ret agood]. destruct (cstate_eqb (k_st k) Connected); [apply arel_put|apply arel_refl].
+  - apply agood_on_lconn. intros k. apply arel_force_close.
+  - apply agood_on_lconn. intros k. cbn [ret agood]. destruct (k_closable k); [apply arel_put|apply arel_refl].
+  - apply agood_on_lconn. intros k. cbn [ret agood]. destruct (cstate_eqb (k_st k) Connected); [apply arel_send_in_loop|apply arel_refl].
+  - apply agood_on_lconn. intros k. destruct (k_added k); [apply arel_start_read|exact I].
+  - apply agood_on_lconn. intros k. destruct (k_added k); [apply arel_stop_read|exact I].
+  - apply agood_on_conn. intros k. apply arel_put.
+  - destruct (getc s c) as [k|]; [|exact I]. destruct (k_urefs k); [exact I|].
+    match goal with |- agood s (if ?b then _ else _) => destruct b; [exact I|] end. apply agood_finish. apply arel_put.
+  - match goal with |- agood s (if ?b then _ else _) => destruct b; [exact I|] end.
+    destruct (find_call u (s_calls s)); [exact I|]. destruct (is_dtor a).
+    + match goal with |- agood s (if ?b then _ else _) => destruct b; [|exact I] end. apply agood_on_conn. intros k. apply arel_same; reflexivity.
+    + apply agood_on_conn. intros k. apply arel_same; reflexivity.
+  - destruct (find_call u (s_calls s)) as [a|]; [|exact I]. destruct (a_stored a); [exact I|].
+    destruct (getc s (a_conn a)) as [k|]; [|exact I]. destruct (is_dtor (a_api a)).
+    + cbn [ret agood]. set (s1 := set_calls s _).
+      assert (H2 : arel s (enq s1 (k_loop k) (TSetCb (a_conn a)))).
+      { apply (arel_trans s s1); [apply arel_same; reflexivity|apply arel_enq_plain; reflexivity]. }
+      destruct (a_loaded a); [eapply arel_trans; [exact H2|apply arel_force_close]|exact H2].
+    + match goal with |- agood s (if ?b then _ else _) => destruct b; [exact I|] end. cbn [ret agood].
+      match goal with |- arel s (if ?b then _ else _) => destruct b end;
+        [eapply arel_trans; [|apply arel_put]; apply arel_same; reflexivity|apply arel_same; reflexivity].
+  - destruct (find_call u (s_calls s)) as [a|]; [|exact I]. destruct (negb (a_stored a)); [exact I|].
+    destruct (getc s (a_conn a)) as [k|]; [|exact I]. destruct (is_dtor (a_api a)).
+    + apply agood_finish. apply arel_same; reflexivity.
+    + match goal with |- agood s (if ?b then _ else _) => destruct b; [exact I|] end.
+      match goal with |- agood s (if ?b then _ else _) => destruct b; [destruct strict; exact I|] end.
+      apply agood_finish. cbn [ret agood]. set (s1 := set_calls s _).
+      assert (H1 : arel s s1) by (apply arel_same; reflexivity).
+      destruct (a_loaded a); [|exact H1].
+      destruct (a_api a); try exact H1; (eapply arel_trans; [exact H1|apply arel_enq_plain; reflexivity]).
+Qed.
+
+Lemma has_task_false_iff s p : has_task p s = false <-> forall l v t, getl s l = Some v -> In t (q_all v) -> p t = false.
+Proof.
+  unfold has_task. split.
+  - intros H l v t Hv Ht. destruct (p t) eqn:E; [|reflexivity]. exfalso.
+    assert (Hx : existsb (fun l0 => existsb p (q_all l0)) (s_loops s) = true); [|congruence].
+    apply existsb_exists. exists v. split; [eapply nth_error_In, Hv|]. apply existsb_exists. eauto.
+  - intros H. apply not_true_is_false. intros Hx. apply existsb_exists in Hx as (v & Hv & Hex).
+    apply existsb_exists in Hex as (t & Ht & Hp). apply In_nth_error in Hv as [l Hl]. rewrite (H l v t Hl Ht) in Hp. discriminate.
+Qed.
+
+Lemma qinv_arel s s' : QInv s -> arel s s' -> QInv s'.
+Proof.
+  intros (Q1 & Q2 & Q3) (A1 & A2 & A3). split; [|split].
+  - rewrite A1, A2. exact Q1.
+  - intros Hs l v' Hl Hv' Hid. rewrite A1 in Hs. specialize (A3 l). rewrite Hv' in A3.
+    destruct (getl s l) as [v|] eqn:Hv; [|contradiction]. destruct A3 as (a1 & a2 & a3 & ex & a4 & a5).
+    assert (Hid0 : q_idle v = false) by (unfold q_idle in *; rewrite <- a1, <- a2, <- a3; exact Hid).
+    rewrite a4, forallb_app, (Q2 Hs l v Hl Hv Hid0), (proj2 (a5 Hs) Hl). reflexivity.
+  - intros Hs. rewrite A1 in Hs. apply has_task_false_iff. intros l v' t Hv' Ht. specialize (A3 l). rewrite Hv' in A3.
+    destruct (getl s l) as [v|] eqn:Hv; [|contradiction]. destruct A3 as (a1 & a2 & a3 & ex & a4 & a5).
+    unfold q_all in Ht. rewrite a1, a2, a4 in Ht. rewrite !in_app_iff in Ht.
+    assert (Hc : In t (q_all v) \/ In t ex) by (unfold q_all; rewrite !in_app_iff; tauto).
+    destruct Hc as [Hc|Hc].
+    + apply (proj1 (has_task_false_iff s is_remove) (Q3 Hs) l v t Hv Hc).
+    + destruct (a5 Hs) as [a6 _]. rewrite forallb_forall in a6. specialize (a6 t Hc). unfold noRm in a6. apply negb_true_iff in a6. exact a6.
+Qed.
+
+Lemma qinv_set_loop s l v v' : QInv s -> getl s l = Some v ->
+  (s_srv s = false -> l <> 0 -> q_idle v' = false -> forallb noED (q_pend v') = true) ->
+  (forall t, In t (q_all v') -> In t (q_all v)) ->
+  QInv (set_loop s l v').
+Proof.
+  intros (Q1 & Q2 & Q3) Hv Hn Hsub. split; [exact Q1|]. split.
+  - intros Hs l1 v1 Hl1 Hv1 Hid. destruct (Nat.eq_dec l l1) as [<-|Hne].
+    + rewrite (getl_set_loop_eq s l v v' Hv) in Hv1. injection Hv1 as <-. apply (Hn Hs Hl1 Hid).
+    + rewrite getl_set_loop_neq in Hv1 by exact Hne. apply (Q2 Hs l1 v1 Hl1 Hv1 Hid).
+  - intros Hs. apply has_task_false_iff. intros l1 v1 t Hv1 Ht. pose proof (proj1 (has_task_false_iff s is_remove) (Q3 Hs)) as H.
+    destruct (Nat.eq_dec l l1) as [<-|Hne].
+    + rewrite (getl_set_loop_eq s l v v' Hv) in Hv1. injection Hv1 as <-. apply (H l v t Hv (Hsub t Ht)).
+    + rewrite getl_set_loop_neq in Hv1 by exact Hne. apply (H l1 v1 t Hv1 Ht).
+Qed.
+
+Lemma io_idle_spec s l v : io_idle s = true -> l <> 0 -> getl s l = Some v -> q_idle v = true.
+Proof.
+  unfold io_idle, getl. intros H Hl Hv. destruct l as [|l]; [congruence|]. destruct (s_loops s) as [|x ls]; [discriminate|].
+  cbn in *. rewrite forallb_forall in H. apply H. eapply nth_error_In, Hv.
+Qed.
+
+(* ~TcpServer's body queues connectDestroyed only *)
+Lemma srv_destroy_from_norm n : forall s c, has_task is_remove s = false ->
+  match srv_destroy_from s n c with Ok (s', _) => has_task is_remove s' = false | _ => True end.
+Proof.
+  induction n as [|n IH]; intros s c H; cbn [srv_destroy_from ret]; [exact H|].
+  destruct (getc s c) as [k|]; [|exact H]. destruct (k_ccb k); try (apply IH, H).
+  destruct (k_mapped k && k_alive k); [|apply IH, H]. set (s1 := put s c _).
+  assert (H1 : has_task is_remove s1 = false) by exact H.
+  destruct (k_loop k =? 0).
+  - unfold connect_destroyed. destruct (getc s1 c) as [k1|]; [|exact I]. destruct (negb (k_alive k1)); [exact I|].
+    destruct (negb (0 =? k_loop k1)); [exact I|].
+    destruct (k_closable k1); (match goal with |- context [chan_remove ?x] => destruct (chan_remove x) end); try exact I;
+      cbn [emit bind]; (match goal with |- context [srv_destroy_from ?x n (S c)] => pose proof (IH x (S c) H1) as Hr; destruct (srv_destroy_from x n (S c)) as [[s2 o2]| |] end); auto.
+  - cbn [ret bind]. pose proof (IH (enq s1 (k_loop k) (TDestroy c)) (S c) (has_task_enq s1 (k_loop k) (TDestroy c) is_remove H1 eq_refl)) as Hr.
+    destruct (srv_destroy_from (enq s1 (k_loop k) (TDestroy c)) n (S c)) as [[s2 o2]| |]; auto.
+Qed.
+
+Lemma step_qinv s o : Inv s -> QInv s -> match step true s o with Ok (s', _) => QInv s' | _ => True end.
+Proof.
+  intros [HI HH] HQ. pose proof (inv0_cl0 s HI) as Hcl.
+  pose proof (agood_step_plain true s o Hcl) as Hp.
+  destruct o; try (destruct (step true s _) as [[s1 o1]| |]; [apply (qinv_arel s s1 HQ Hp)|exact I|exact I]).
+  - (* SrvDestroy *)
+    cbn [step]. destruct (s_srv s) eqn:Hs; [|exact I]. cbn [negb andb].
+    destruct (has_task is_remove s || has_task is_force s) eqn:Eg; [exact I|]. apply orb_false_iff in Eg as [Enr _].
+    destruct (io_idle s) eqn:Hio; [|exact I]. cbn [negb].
+    pose proof (agood_srv_destroy_from (length (s_conns s)) s 0 Hs) as Ha.
+    pose proof (srv_destroy_from_norm (length (s_conns s)) s 0 Enr) as Hnr.
+    destruct (srv_destroy_from s (length (s_conns s)) 0) as [[s1 o1]| |]; [|exact I|exact I]. cbn [bind ret].
+    set (s2 := set_stop (set_srv s1 false) (if s_nio s =? 0 then 0 else 1)).
+    pose proof (agood_finish s2 (Ok (s2, o1 ++ [])) 0 (arel_refl s2)) as Hf.
+    destruct (finish (Ok (s2, o1 ++ [])) 0) as [[s3 o3]| |]; [|exact I|exact I]. cbn in Hf.
+    assert (HQ2 : QInv s2).
+    { split; [intros _; reflexivity|]. split; [|intros _; exact Hnr].
+      intros _ l v2 Hl Hv2 Hid. exfalso. change (getl s2 l) with (getl s1 l) in Hv2.
+      destruct Ha as (_ & _ & A3). specialize (A3 l). rewrite Hv2 in A3.
+      destruct (getl s l) as [v|] eqn:Hv; [|contradiction]. destruct A3 as (a1 & a2 & a3 & _).
+      pose proof (io_idle_spec s l v Hio Hl Hv) as Hi. unfold q_idle in *. rewrite a1, a2, a3, Hi in Hid. discriminate. }
+    apply (qinv_arel s2 s3 HQ2 Hf).
+  - (* Swap *)
+    cbn [step]. destruct (getl s l) as [v|] eqn:Hv; [|exact I]. destruct (q_idle v && negb (gone s l)) eqn:Eid; [|exact I]. cbn [ret].
+    apply andb_prop in Eid as [Eid _]. unfold q_idle in Eid. destruct (q_batch v) eqn:Eb; [|discriminate]. destruct (q_spent v) eqn:Es; [|discriminate].
+    apply (qinv_set_loop s l v _ HQ Hv); [reflexivity|].
+    intros t. unfold q_all. cbn [q_pend q_batch q_spent]. rewrite Eb, Es. cbn [app]. rewrite app_nil_r. auto.
+  - (* Run *)
+    cbn [step]. destruct (getl s l) as [v|] eqn:Hv; [|exact I]. destruct (q_batch v) as [|t rest] eqn:Hb; [exact I|].
+    fold (popped v t rest). fold (set_loop s l (popped v t rest)).
+    assert (HQ1 : QInv (set_loop s l (popped v t rest))).
+    { apply (qinv_set_loop s l v _ HQ Hv); [|apply (popped_in v t rest Hb)].
+      intros Hs Hl _. cbn [popped q_pend]. apply (proj1 (proj2 HQ) Hs l v Hl Hv). unfold q_idle. rewrite Hb. reflexivity. }
+    pose proof (agood_finish _ _ l (agood_run_task (set_loop s l (popped v t rest)) l t full wc Hcl)) as Hf.
+    destruct (finish (run_task (set_loop s l (popped v t rest)) l t full wc) l) as [[s1 o1]| |]; [|exact I|exact I].
+    apply (qinv_arel _ s1 HQ1 Hf).
+  - (* EndBatch *)
+    cbn [step]. destruct (getl s l) as [v|] eqn:Hv; [|exact I]. destruct (q_batch v) eqn:Hb; [|exact I].
+    destruct (negb (q_drain v)); [exact I|]. destruct (quitting s l) eqn:Eq.
+    + destruct (true && outlived s l); [exact I|]. cbn [ret].
+      change (set_loops s (upd (s_loops s) l (mkLq [] [] [] false))) with (set_loop s l (mkLq [] [] [] false)).
+      set (s2 := set_stop (set_loop s l (mkLq [] [] [] false)) (S l)).
+      assert (HQ2 : QInv s2).
+      { destruct (quitting_spec s l Eq) as [Hl0 Hst]. pose proof (proj1 HQ) as Q1.
+        destruct (qinv_set_loop s l v (mkLq [] [] [] false) HQ Hv) as (_ & R2 & R3); [reflexivity|intros t []|].
+        split; [intros _; apply Q1; lia|]. split; [exact R2|exact R3]. }
+      pose proof (agood_finish s2 (ret s2) l (arel_refl s2)) as Hf.
+      destruct (finish (ret s2) l) as [[s3 o3]| |]; [|exact I|exact I]. apply (qinv_arel s2 s3 HQ2 Hf).
+    + cbn [ret]. fold (set_loop s l (mkLq (q_pend v) [] [] false)). set (s2 := set_loop s l (mkLq (q_pend v) [] [] false)).
+      assert (HQ2 : QInv s2).
+      { apply (qinv_set_loop s l v _ HQ Hv); [intros _ _ Hx; discriminate Hx|].
+        intros t. unfold q_all. cbn [q_pend q_batch q_spent]. rewrite Hb. cbn [app]. intros Ht. apply in_or_app. right. exact Ht. }
+      pose proof (agood_finish s2 (ret s2) l (arel_refl s2)) as Hf.
+      destruct (finish (ret s2) l) as [[s3 o3]| |]; [|exact I|exact I]. apply (qinv_arel s2 s3 HQ2 Hf).
 Qed.
 
 (* ==== the theorems =================================================================================== *)
-Theorem step_strict_ok s o : Inv s -> step_ok s o.
+Definition Inv2 (s : sys) : Prop := Inv s /\ QInv s.
+
+Lemma init_inv2 nio readd : Inv2 (init_sys nio readd).
 Proof.
-  intros HI. destruct o.
+  split; [apply init_inv|]. split; [intros H; exfalso; apply H; reflexivity|]. split; discriminate.
+Qed.
+
+Theorem step_strict_ok s o : Inv s -> QInv s -> step_ok s o.
+Proof.
+  intros HI HQ. destruct o.
   - apply step_Accept, HI.
   - apply step_SrvDestroy, HI.
   - apply step_CliConnect, HI.
   - apply step_CliDestroy, HI.
   - apply step_Swap, HI.
   - apply step_Run, HI.
-  - apply step_EndBatch, HI.
+  - apply step_EndBatch; assumption.
   - apply step_Ev, HI.
   - apply step_DelayFire, HI.
   - apply step_LShutdown, HI.
@@ -2794,11 +3331,17 @@ Proof.
   - apply step_XEnq, HI.
 Qed.
 
-Lemma run_strict_ok ops : forall s, Inv s ->
-  match run true s ops with Ok (s', _) => Inv s' | Rejected => True | Fault => False end.
+Theorem step_strict_ok2 s o : Inv2 s -> match step true s o with Ok (s', _) => Inv2 s' | Rejected => True | Fault => False end.
+Proof.
+  intros [HI HQ]. pose proof (step_strict_ok s o HI HQ) as H1. pose proof (step_qinv s o HI HQ) as H2. unfold step_ok in H1.
+  destruct (step true s o) as [[s1 o1]| |]; [split; assumption|exact I|exact H1].
+Qed.
+
+Lemma run_strict_ok ops : forall s, Inv2 s ->
+  match run true s ops with Ok (s', _) => Inv2 s' | Rejected => True | Fault => False end.
 Proof.
   induction ops as [|o ops IH]; intros s HI; cbn [run ret]; [exact HI|].
-  pose proof (step_strict_ok s o HI) as H. unfold step_ok in H. unfold bind.
+  pose proof (step_strict_ok2 s o HI) as H. unfold bind.
   destruct (step true s o) as [[s1 o1]| |]; [|exact I|exact H].
   specialize (IH s1 H). destruct (run true s1 ops) as [[s2 o2]| |]; auto.
 Qed.
@@ -2808,11 +3351,14 @@ Inductive sreach : sys -> Prop :=
 | sreach_init nio readd : sreach (init_sys nio readd)
 | sreach_step s o s' obs : sreach s -> step true s o = Ok (s', obs) -> sreach s'.
 
-Lemma sreach_inv s : sreach s -> Inv s.
+Lemma sreach_inv2 s : sreach s -> Inv2 s.
 Proof.
-  induction 1 as [nio readd|s o s' obs _ IH H]; [apply init_inv|].
-  pose proof (step_strict_ok s o IH) as Hs. unfold step_ok in Hs. rewrite H in Hs. exact Hs.
+  induction 1 as [nio readd|s o s' obs _ IH H]; [apply init_inv2|].
+  pose proof (step_strict_ok2 s o IH) as Hs. rewrite H in Hs. exact Hs.
 Qed.
+
+Lemma sreach_inv s : sreach s -> Inv s.
+Proof. intros H. apply (proj1 (sreach_inv2 s H)). Qed.
 
 Lemma run_sreach ops : forall s s' obs, sreach s -> run true s ops = Ok (s', obs) -> sreach s'.
 Proof.
@@ -2826,12 +3372,12 @@ Qed.
 (* no assertion of the C++, no use of a destroyed object *)
 Theorem S02_no_fault : forall nio readd ops, run true (init_sys nio readd) ops <> Fault.
 Proof.
-  intros nio readd ops H. pose proof (run_strict_ok ops _ (init_inv nio readd)) as Hr. rewrite H in Hr. exact Hr.
+  intros nio readd ops H. pose proof (run_strict_ok ops _ (init_inv2 nio readd)) as Hr. rewrite H in Hr. exact Hr.
 Qed.
 
 Theorem S02_step_no_fault : forall s o, sreach s -> step true s o <> Fault.
 Proof.
-  intros s o Hr H. pose proof (step_strict_ok s o (sreach_inv s Hr)) as Hs. unfold step_ok in Hs. rewrite H in Hs. exact Hs.
+  intros s o Hr H. pose proof (step_strict_ok2 s o (sreach_inv2 s Hr)) as Hs. rewrite H in Hs. exact Hs.
 Qed.
 
 (* destruction: at most once, close(fd) exactly as often, and only of a connection that is
@@ -2880,6 +3426,74 @@ Proof.
     + destruct Hph as (_ & [(_ & _ & Hx & _)|[(_ & B & _)|(_ & B & _)]]); [discriminate|congruence|congruence].
   - right. destruct (ci_dtor s c k HCk) as [D1 D2]. rewrite Ha in D1.
     destruct (ci_deadst s c k HCk Ha) as (A & B & C & _). unfold k_inset. rewrite C. repeat split; auto. congruence.
+Qed.
+
+(* ==== the pool's tear-down: when an io loop leaves loop() every connection assigned to it has been destroyed ======= *)
+Lemma sweep_from_alive n : forall s thr c0 c k', getc (fst (sweep_from s thr n c0)) c = Some k' -> k_alive k' = true -> getc s c = Some k'.
+Proof.
+  induction n as [|n IH]; intros s thr c0 c k' H Ha; cbn [sweep_from] in H; [exact H|].
+  destruct (getc s c0) as [k0|] eqn:Hg0; [|exact H]. destruct (k_alive k0 && (holders s c0 =? 0)); [|apply (IH s thr (S c0) c k' H Ha)].
+  destruct (sweep_from (put s c0 (kill k0)) thr n (S c0)) as [s1 o1] eqn:E. cbn [fst] in H.
+  assert (H1 : getc (fst (sweep_from (put s c0 (kill k0)) thr n (S c0))) c = Some k') by (rewrite E; exact H).
+  pose proof (IH _ thr (S c0) c k' H1 Ha) as H2. destruct (Nat.eq_dec c0 c) as [<-|Hn].
+  - rewrite getc_put_eq in H2 by (eapply getc_lt, Hg0). injection H2 as <-. discriminate.
+  - rewrite getc_put_neq in H2 by exact Hn. exact H2.
+Qed.
+
+Lemma finish_fst s o thr s' o' : finish (Ok (s, o)) thr = Ok (s', o') -> s' = fst (sweep s thr).
+Proof. unfold finish. destruct (sweep s thr) as [s1 d]. destruct (all_clean d); [|discriminate]. intros H. injection H as <- _. reflexivity. Qed.
+
+Lemma outlived_from_false s l cs : forall c0, outlived_from s l cs c0 = false -> forall i k, nth_error cs i = Some k ->
+  k_alive k = true -> k_loop k = l -> k_urefs k = 0 /\ count_calls (c0 + i) (s_calls s) = 0.
+Proof.
+  induction cs as [|x cs IH]; intros c0 H i k Hi Ha Hl; [destruct i; discriminate|]. cbn [outlived_from] in H.
+  apply orb_false_iff in H as [H1 H2]. destruct i as [|i]; cbn in Hi.
+  - injection Hi as ->. rewrite Ha, Hl, Nat.eqb_refl in H1. cbn [andb] in H1. apply negb_false_iff, andb_prop in H1 as [A B].
+    apply Nat.eqb_eq in A, B. rewrite Nat.add_0_r. auto.
+  - replace (c0 + S i) with (S c0 + i) by lia. apply (IH (S c0) H2 i k Hi Ha Hl).
+Qed.
+
+Theorem S02_pool_exit_destroys : forall s l s' obs, sreach s -> quitting s l = true -> step true s (EndBatch l) = Ok (s', obs) ->
+  s_stop s' = S l /\ forall c k', getc s' c = Some k' -> k_loop k' = l -> k_alive k' = false.
+Proof.
+  intros s l s' obs Hr Eq H. destruct (sreach_inv2 s Hr) as [[HI HH] (Q1 & Q2 & Q3)].
+  destruct (quitting_spec s l Eq) as [Hl0 Hst]. assert (Hsrv : s_srv s = false) by (apply Q1; lia).
+  cbn [step] in H. destruct (getl s l) as [v|] eqn:Hv; [|discriminate]. destruct (q_batch v) eqn:Hb; [|discriminate].
+  destruct (q_drain v) eqn:Edr; [|discriminate]. cbn [negb] in H. rewrite Eq in H. cbn [andb] in H.
+  destruct (outlived s l) eqn:Eout; [discriminate|].
+  change (set_loops s (upd (s_loops s) l (mkLq [] [] [] false))) with (set_loop s l (mkLq [] [] [] false)) in H.
+  set (s1 := set_loop s l (mkLq [] [] [] false)) in *. set (s2 := set_stop s1 (S l)) in *.
+  assert (HI2 : Inv0 s2).
+  { apply set_stop_inv0. apply (exit_inv0 s l v HI Hv Hl0 Hb). apply (Q2 Hsrv l v Hl0 Hv). unfold q_idle. rewrite Hb, Edr. destruct (q_spent v); reflexivity. }
+  destruct (finish_inv s2 l [] HI2) as (s3 & d & E & HI3 & _ & _ & Hloops & Hcalls & _). unfold ret in H.
+  rewrite E in H. injection H as <- _. pose proof (finish_fst s2 [] l s3 _ E) as Efst.
+  split.
+  { rewrite Efst. unfold sweep. apply (sweep_from_same (length (s_conns s2)) s2 l 0). }
+  intros c k' Hg Hl. destruct (k_alive k') eqn:Ha; [exfalso|reflexivity].
+  assert (Hg0 : getc s c = Some k').
+  { rewrite Efst in Hg. unfold sweep in Hg. apply (sweep_from_alive _ s2 l 0 c k' Hg Ha). }
+  pose proof (proj2 HI3 c k' Hg Ha) as Hheld.
+  pose proof (proj2 HI c k' Hg0) as HCk. destruct HI as [G HC].
+  (* its only possible holders were functors of loop l *)
+  destruct (outlived_from_false s l (s_conns s) 0 Eout c k' Hg0 Ha Hl) as [Hu Hc]. cbn in Hc.
+  assert (Hcb : k_ccb k' = CbServer).
+  { destruct (k_ccb k') eqn:Ecb; [reflexivity| |]; exfalso; apply Hl0; rewrite <- Hl; apply (proj2 (ci_loop s c k' HCk)); congruence. }
+  assert (Hm : k_mapped k' = false).
+  { pose proof (ci_phase s c k' HCk Ha) as Hph. unfold phase, owner_alive in Hph. rewrite Hcb, Hsrv in Hph. destruct (k_st k').
+    - destruct Hph as (_ & _ & _ & _ & _ & _ & [(_ & _ & Hx)|(Hx & _)]); [discriminate|exact Hx].
+    - destruct Hph as (_ & _ & _ & [(_ & _ & Hx)|[(Hx & _)|(Hx & _)]]); [discriminate|exact Hx|exact Hx].
+    - destruct Hph as (_ & _ & _ & [(_ & _ & Hx)|[(Hx & _)|(Hx & _)]]); [discriminate|exact Hx|exact Hx].
+    - destruct Hph as (_ & [(_ & _ & _ & _ & _ & Hx)|[(_ & Hx & _)|(_ & Hx & _)]]); [discriminate|exact Hx|exact Hx]. }
+  assert (Hall : allN (holds c) s3 = 0).
+  { unfold allN. rewrite Hloops. change (s_loops s2) with (s_loops s1). apply sumq_zero. intros w Hw. apply In_nth_error in Hw as [j Hj].
+    change (nth_error (s_loops s1) j = Some w) with (getl s1 j = Some w) in Hj. destruct (Nat.eq_dec l j) as [<-|Hn].
+    - unfold s1 in Hj. rewrite (getl_set_loop_eq s l v _ Hv) in Hj. injection Hj as <-. reflexivity.
+    - unfold s1 in Hj. rewrite getl_set_loop_neq in Hj by exact Hn. apply cnt_zero_notin. intros t Ht.
+      destruct (holds c t) eqn:Eh; [|reflexivity]. exfalso. unfold holds in Eh. apply andb_prop in Eh as [Ec Es]. apply Nat.eqb_eq in Ec.
+      destruct (gi_placed s G j w t Hj Ht) as [_ [_ Hpl]].
+      destruct t; try discriminate Es; try (destruct Hpl as (k1 & Hk1 & Hl1 & _); rewrite Ec, Hg0 in Hk1; injection Hk1 as <-; congruence).
+      pose proof (proj1 (has_task_false_iff s is_remove) (Q3 Hsrv) j w (TRemove c0) Hj Ht) as Hx. discriminate Hx. }
+  rewrite (holders_eq s3 c k' Hg), Hm, Hu, Hcalls, Hall in Hheld. change (s_calls s2) with (s_calls s) in Hheld. rewrite Hc in Hheld. cbn in Hheld. lia.
 Qed.
 
 (* ==== affinity: which thread runs the callbacks ====================================================== *)
@@ -3141,32 +3755,35 @@ Qed.
 Lemma good_on_conn s c f : (forall k, getc s c = Some k -> good s (f k)) -> good s (on_conn s c f).
 Proof. intros H. unfold on_conn. destruct (getc s c) as [k|] eqn:Hg; [|exact I]. destruct (_ && _); [apply H; reflexivity|exact I]. Qed.
 
+Lemma good_on_lconn s c f : (forall k, getc s c = Some k -> good s (f k)) -> good s (on_lconn s c f).
+Proof. intros H. unfold on_lconn. apply good_on_conn. intros k Hg. destruct (gone s (k_loop k)); [exact I|apply H, Hg]. Qed.
+
 Lemma good_step strict s o : good s (step strict s o).
 Proof.
   destruct o; cbn [step].
   - apply good_finish, good_accept.
-  - destruct (negb (s_srv s)); [exact I|]. destruct (_ && _); [exact I|]. apply good_finish.
+  - destruct (negb (s_srv s)); [exact I|]. destruct (_ && _); [exact I|]. destruct (_ && _); [exact I|]. apply good_finish.
     apply good_bind; [apply good_srv_destroy_from|]. intros s1. apply good_ret, lk_same_conns. reflexivity.
   - apply good_finish, good_cli_connect.
   - apply good_finish, good_cli_destroy.
-  - destruct (getl s l) as [v|]; [|exact I]. destruct (q_idle v); [|exact I]. apply good_ret, lk_same_conns. reflexivity.
+  - destruct (getl s l) as [v|]; [|exact I]. destruct (q_idle v && negb (gone s l)); [|exact I]. apply good_ret, lk_same_conns. reflexivity.
   - destruct (getl s l) as [v|]; [|exact I]. destruct (q_batch v) as [|t rest]; [exact I|]. apply good_finish.
     eapply good_weaken; [|apply good_run_task]. apply lk_same_conns. reflexivity.
-  - destruct (getl s l) as [v|]; [|exact I]. destruct (q_batch v); [|exact I]. destruct (q_spent v); [exact I|].
-    apply good_finish, good_ret, lk_same_conns. reflexivity.
+  - destruct (getl s l) as [v|]; [|exact I]. destruct (q_batch v); [|exact I]. destruct (negb (q_drain v)); [exact I|].
+    destruct (quitting s l); [destruct (_ && _); [exact I|]|]; apply good_finish, good_ret, lk_same_conns; reflexivity.
   - destruct (getc s c) as [k|]; [|exact I]. apply good_finish, good_ev_step.
   - destruct (getc s c) as [k|] eqn:Hg; [|exact I]. destruct (k_delayed k); [exact I|]. destruct (negb _); [exact I|].
     apply good_finish, good_ret.
     assert (L : lk s (put s c (set_own k (k_ccb k) (k_mapped k) (k_urefs k) n))) by (apply lk_put; intros k0 Hk0; rewrite Hg in Hk0; injection Hk0 as <-; reflexivity).
     destruct (k_alive k); [eapply lk_trans; [exact L|apply lk_force_close]|exact L].
-  - apply good_on_conn. intros k Hg. apply good_ret. destruct (cstate_eqb (k_st k) Connected); [|apply lk_refl].
+  - apply good_on_lconn. intros k Hg. apply good_ret. destruct (cstate_eqb (k_st k) Connected); [|apply lk_refl].
     apply lk_put. intros k0 Hk0. rewrite Hg in Hk0. injection Hk0 as <-. unfold shutdown_in_loop. destruct (k_wr _); reflexivity.
-  - apply good_on_conn. intros k Hg. apply good_ret, lk_force_close.
-  - apply good_on_conn. intros k Hg. apply good_ret. destruct (k_closable k); [|apply lk_refl].
+  - apply good_on_lconn. intros k Hg. apply good_ret, lk_force_close.
+  - apply good_on_lconn. intros k Hg. apply good_ret. destruct (k_closable k); [|apply lk_refl].
     apply lk_put. intros k0 Hk0. rewrite Hg in Hk0. injection Hk0 as <-. reflexivity.
-  - apply good_on_conn. intros k Hg. apply good_ret. destruct (cstate_eqb (k_st k) Connected); [apply lk_send_in_loop|apply lk_refl].
-  - apply good_on_conn. intros k Hg. destruct (k_added k); [apply good_ret, lk_start_read|exact I].
-  - apply good_on_conn. intros k Hg. destruct (k_added k); [apply good_ret, lk_stop_read|exact I].
+  - apply good_on_lconn. intros k Hg. apply good_ret. destruct (cstate_eqb (k_st k) Connected); [apply lk_send_in_loop|apply lk_refl].
+  - apply good_on_lconn. intros k Hg. destruct (k_added k); [apply good_ret, lk_start_read|exact I].
+  - apply good_on_lconn. intros k Hg. destruct (k_added k); [apply good_ret, lk_stop_read|exact I].
   - apply good_on_conn. intros k Hg. apply good_ret. apply lk_put. intros k0 Hk0. rewrite Hg in Hk0. injection Hk0 as <-. reflexivity.
   - destruct (getc s c) as [k|] eqn:Hg; [|exact I]. destruct (k_urefs k); [exact I|]. destruct (_ && _ && _ && _ && _); [exact I|].
     apply good_finish, good_ret. apply lk_put. intros k0 Hk0. rewrite Hg in Hk0. injection Hk0 as <-. reflexivity.
@@ -3188,7 +3805,7 @@ Proof.
       match goal with |- lk s (set_cli ?s2 _ _) => apply (lk_trans s s2); [|apply lk_same_conns; reflexivity] end.
       match goal with |- lk s (put ?s1 _ _) => apply (lk_trans s s1); [apply lk_same_conns; reflexivity|] end.
       apply lk_put. intros k0 Hk0. change (getc s (a_conn a) = Some k0) in Hk0. rewrite Hg in Hk0. injection Hk0 as <-. reflexivity. }
-    destruct (_ && _ && _ && _); [exact I|].
+    destruct (_ && _ && _ && _); [exact I|]. destruct (a_loaded a && gone s (k_loop k)); [destruct strict; exact I|].
     apply good_finish, good_ret. destruct (a_loaded a); [|apply lk_same_conns; reflexivity].
     destruct (a_api a); try (apply lk_same_conns; reflexivity);
       match goal with |- lk s (enq ?s1 _ _) => apply (lk_trans s s1); [apply lk_same_conns; reflexivity|apply lk_enq] end.
@@ -3264,6 +3881,44 @@ Lemma W_f13 : run false (init_sys 0 false) w_f13 = Fault /\ run true (init_sys 0
 Proof. repeat split; try (vm_compute; reflexivity). vm_compute. eexists _, _. split; reflexivity. Qed.
 
 (* with the fixed poller (F-15) a registered descriptor always has interest: the HUP hypothesis is not needed *)
+(* H7: ~TcpServer while an io loop is inside a drain.  The hand-off (connectDestroyed bound with the last TcpConnectionPtr)
+   goes to pendingFunctors_ behind the batch, ~EventLoopThread stores quit_, the io thread finishes its batch, leaves loop()
+   and the EventLoop is destroyed with the functor still queued: ~TcpConnection runs while kConnected (UP was delivered,
+   DOWN never is, the channel is destroyed while registered).  a: the io thread is running a write-complete callback;
+   b: it is about to run the connectEstablished of a connection accepted just before; c: it is inside a drain of an empty batch *)
+Definition w_pool_a : list op :=
+  [Accept; Swap 1; Run 1 true true; EndBatch 1; LSend 0 true true; Swap 1; SrvDestroy; Run 1 true true; EndBatch 1].
+Definition w_pool_b : list op := [Accept; Swap 1; SrvDestroy; Run 1 true true; EndBatch 1].
+Definition w_pool_c : list op := [Accept; Swap 1; Run 1 true true; EndBatch 1; Swap 1; SrvDestroy; EndBatch 1].
+
+Lemma W_pool :
+  run false (init_sys 1 false) w_pool_a = Fault /\ run false (init_sys 1 false) w_pool_b = Fault /\ run false (init_sys 1 false) w_pool_c = Fault /\
+  run true (init_sys 1 false) w_pool_a = Rejected /\ run true (init_sys 1 false) w_pool_b = Rejected /\ run true (init_sys 1 false) w_pool_c = Rejected /\
+  (* up to the last op nothing is wrong: UP delivered, no DOWN, connectDestroyed still queued, nothing of H2 in flight *)
+  (exists s o k v, run false (init_sys 1 false) (firstn 8 w_pool_a) = Ok (s, o) /\ o = [OUp 1 0] /\ getc s 0 = Some k /\ k_st k = Connected /\
+     k_alive k = true /\ holders s 0 = 1 /\ getl s 1 = Some v /\ q_pend v = [TDestroy 0] /\ q_batch v = [] /\ q_drain v = true /\ s_stop s = 1 /\
+     step false s (EndBatch 1) = Fault) /\
+  (* it is H7 that rejects it: the prefix is accepted under the hypotheses, H2's guard is silent, the io loop is inside a drain *)
+  (exists s o, run true (init_sys 1 false) (firstn 6 w_pool_a) = Ok (s, o) /\ has_task is_remove s = false /\ has_task is_force s = false /\
+     io_idle s = false /\ step true s SrvDestroy = Rejected) /\
+  (* the same ops with the destruction one step later (the io thread back in poll()): UP, DOWN, destroyed *)
+  (exists s o, run true (init_sys 1 false)
+     [Accept; Swap 1; Run 1 true true; EndBatch 1; LSend 0 true true; Swap 1; Run 1 true true; EndBatch 1; SrvDestroy; Swap 1; Run 1 true true; EndBatch 1] = Ok (s, o) /\
+     o = [OUp 1 0; ODown 1 0; ODtor 1 0 true] /\ s_stop s = 2).
+Proof.
+  repeat split; try (vm_compute; reflexivity).
+  - vm_compute. eexists _, _, _, _. repeat split.
+  - vm_compute. eexists _, _. repeat split.
+  - vm_compute. eexists _, _. repeat split.
+Qed.
+
+(* H7 is the only thing strict mode adds to ~TcpServer besides H2 *)
+Lemma S02_H7_guard : forall s, s_srv s = true -> has_task is_remove s = false -> has_task is_force s = false ->
+  (io_idle s = false -> step true s SrvDestroy = Rejected) /\ (io_idle s = true -> step true s SrvDestroy = step false s SrvDestroy).
+Proof.
+  intros s Hs Hr Hf. cbn [step]. rewrite Hs, Hr, Hf. cbn [negb andb orb]. split; intros H; rewrite H; reflexivity.
+Qed.
+
 Lemma S02_inset_has_interest : forall s c k, sreach s -> s_readd s = false -> getc s c = Some k -> k_alive k = true ->
   k_inset k = true -> k_wr k = true \/ k_rd k = true.
 Proof.
@@ -3278,12 +3933,12 @@ Definition ex_sys_ops : list op :=
   [Accept; Accept; CliConnect; Swap 1; Run 1 true true; EndBatch 1; Ev 0 KData; UGrab 0; XBegin 1 0 AShutdown; XStore 1; XEnq 1 true;
    Ev 0 KEof; Swap 0; Run 0 true true; EndBatch 0; Swap 1; Run 1 true true; Run 1 true true; EndBatch 1; UDrop 0;
    Swap 2; Run 2 true true; EndBatch 2; LSend 1 false true; Ev 1 (KOut true true); SrvDestroy; Swap 2; Run 2 true true; Run 2 true true; EndBatch 2;
-   CliDestroy; Swap 0; Run 0 true true; EndBatch 0; Swap 0; Run 0 true true; EndBatch 0].
+   Swap 1; EndBatch 1; Swap 2; EndBatch 2; CliDestroy; Swap 0; Run 0 true true; EndBatch 0; Swap 0; Run 0 true true; EndBatch 0].
 
 Lemma ex_sys_run : exists s o, run true (init_sys 2 false) ex_sys_ops = Ok (s, o) /\
   o = [OUp 0 2; OUp 1 0; OMsg 1 0; ODown 1 0; ODtor 100 0 true; OUp 2 1; ODown 2 1; ODtor 2 1 true; ODown 0 2; ODtor 0 2 true] /\
-  (forall l v, getl s l = Some v -> q_all v = []) /\ s_calls s = [].
+  (forall l v, getl s l = Some v -> q_all v = []) /\ s_calls s = [] /\ s_stop s = 3.
 Proof.
-  vm_compute. eexists _, _. split; [reflexivity|]. split; [reflexivity|]. split; [|reflexivity].
+  vm_compute. eexists _, _. split; [reflexivity|]. split; [reflexivity|]. split; [|split; reflexivity].
   intros [|[|[|l]]] v H; cbn in H; try (injection H as <-; reflexivity). destruct l; discriminate.
 Qed.
